@@ -88,6 +88,14 @@ CLAIMED['C15'] = dict(
          'Invalid tokens exactly for malformed or non-scalar escapes, radix accumulators (bases 2..36 and base-64) equal the sum of digit values over the maximal digit prefix; no path panics.',
     note='Partial: the main Lexer::lex dispatch loop over arbitrary text, the recursive-descent parser, format-string bodies, float literals (std parse) and literal evaluation are outside (not encodable within reach).',
     design='§7 C15/C16', technique='symbolic execution of rustc MIR + SMT (z3) over symbolic character sequences')
+CLAIMED['C14'] = dict(
+    text='Panic-reachability by symbolic execution: a sweep over the builtin closures registered in initialize (found from the `name: .., body: |..|` registrations of the current source), each run with '
+         '1-3 arguments whose kind ranges over null / int (both representations) / rational / float / string / list / empty list / vector / bytes / dict and whose numeric values are symbolic; a feasible path '
+         'ending in panic!/unwrap/expect/todo!/overflow/index-out-of-bounds/division-by-zero is replayed natively and reported when the interpreter really panics; plus the slice-assignment site. '
+         'The evidence lists which builtins were encoded (measured ratio) and why the others were not.',
+    note='Partial: builtins needing the environment / I/O / clock / randomness, struct-implemented builtins (impl Builtin) and everything listed as not encoded are outside; hangs are only seen as fuel exhaustion. '
+         'The panic obligations of the kernels of C01-C12, C15, C16 are discharged in those checks (index arithmetic, % by zero, 0^-n, permutations/cycle on empty input, \\\\u overflow, decimal exponents were found there).',
+    design='§7 C14', technique='symbolic execution of rustc MIR + SMT (z3): panic-path feasibility')
 NOT_APPLICABLE = {
  'C13': 'sequence library vs executable specification: the deciding content is std collections glued by one-line closures over whole sequences; not encodable as a bounded solver query over noulith code (DESIGN §9); parts decided under C08/C09/C10/C11/C14',
  'C17': 'freeze: semantic equivalence of two recursive traversals over programs; a bounded solver query cannot carry it (DESIGN §9)',
